@@ -271,6 +271,11 @@ theorem lookup_agrees_under_relF {m : Nat → Nat} {s : St} {rs : Ref.St} {env :
     (lexLookup s x).map (fun p => (p.1, trf m p.2)) = Ref.lookup rs env x :=
   lookup_sound_x (simX_of_relF h) x
 
+/-- in the initial interpreter every name is found (or not) alike by both lookups; e.g. the builtin `+` -/
+example : ∀ x, (lexLookup VM.initSt x).map (fun p => (p.1, trf id p.2)) = Ref.lookup Ref.initSt 0 x :=
+  lookup_agrees_under_relF (relF_initSt id)
+example : Ref.lookup Ref.initSt 0 "+" = some (0, .builtin "+") := by decide
+
 /-! ### The difference between `Sim` and `SimX` is real
 
 A one-scope state whose two variables are listed in the opposite order in the reference frame (as after
@@ -364,7 +369,10 @@ whatever the generator made of it (the ordinary `callExpr`, or guard / operands 
 lands behind the call related at the same environment (ordinary call: guard failed or never emitted), or
 — the jump was taken, the function scope was dropped and `AddFuncScope` ran again for a FRESH scope — the
 whole activation has returned to its caller (`pc = s₁.pc + 1`) and the states are related at the CALLER's
-environment `env` again. From `C02.tail_call_simulates`. -/
+environment `env` again. From `C02.tail_call_simulates`; the hypotheses are the ones of that theorem
+(`Sim.InAct`: inside the activation of closure `vid` entered from `s₁`), discharged for the body of every
+closure object of the fragment inside `Sim.fclaimU_succ` — `tail_call_gets_fresh_scope` above runs through
+this path three times. -/
 theorem sim_preserved_across_tail_call {k : Nat} {self h : String} {args : List Expr} (hh : (h != "") = true)
     (hhead : okHead h = true) (hfa : FaList args = true) (hself : (h != self) = true ∨ FfList false self args = true)
     (isFn : Nat → Bool) (c : Ctx) (gs : GS) (r : (List Instr × Bool) × GS)
